@@ -5,8 +5,9 @@ package wait
 import "sync/atomic"
 
 // The harness can stop a Trigger between its two parts: tools/instrument inserts `verifTriggerGap(id, rd != nil)` right
-// after `w.l.Unlock()` of multList.Trigger (the registration is deleted, the result is not stored and the channel not
-// signalled yet). Without a hook installed this is a no-op.
+// before the top-level `if rd != nil` of multList.Trigger (the registration is deleted, the result is not stored and the
+// channel not signalled yet). Since fix 184e1b3 the shard lock is HELD at that point (before the fix it had been dropped):
+// VerifShardLocked lets the harness see which of the two it is. Without a hook installed this is a no-op.
 var verifTriggerGapHook atomic.Value // func(id uint64, registered bool)
 
 // SetVerifTriggerGap installs (or, with nil, removes) the hook.
@@ -16,4 +17,19 @@ func verifTriggerGap(id uint64, registered bool) {
 	if f, _ := verifTriggerGapHook.Load().(func(uint64, bool)); f != nil {
 		f(id, registered)
 	}
+}
+
+// VerifShardLocked reports whether the lock of the shard that holds id is taken right now (a TryLock probe; the caller
+// must not be the holder).
+func VerifShardLocked(w Wait, id uint64) bool {
+	mw, ok := w.(multList)
+	if !ok {
+		return false
+	}
+	l := mw[id%uint64(len(mw))]
+	if l.l.TryLock() {
+		l.l.Unlock()
+		return false
+	}
+	return true
 }
